@@ -206,6 +206,16 @@ def _plane_family(case, rec):
     V = np.asarray(res.vertices, dtype=float)
     h = hausdorff(V, X)
     rec.check(h <= 1e-6 * size, "is_the_halfspace_intersection", sig, hausdorff=h / size, nverts=len(V), exact=len(X))
+    # the family must hand out the same shape again, whatever the caller did to the first object
+    call(setattr, res, "volume", 8.0 * float(res.volume))
+    call(setattr, res, "centroid", np.array([5.0, -3.0, 2.0]) * size)
+    res2 = call(TT.get_shape, t) if trunc else call(cls.get_shape, a, c)
+    if isinstance(res2, Raised):
+        rec.fail("second_call_raised", dict(sig, type=res2.type), msg=res2.msg)
+    else:
+        h2 = hausdorff(np.asarray(res2.vertices, dtype=float), X)
+        rec.check(h2 <= 1e-6 * size, "second_call_unaffected_by_mutating_first_result", sig, hausdorff=h2 / size)
+    res = res2 if not isinstance(res2, Raised) else res
     if case["mode"] == "corner":
         want = CORNERS[fam][(int(u), int(v))] if not trunc else {0.0: (4, 6, 4), 1.0: (6, 12, 8)}.get(v)
         if want:
